@@ -62,6 +62,9 @@ func stateProbeSource(w *gen.World) string {
 	b.WriteString("<ptrmethod:{{isset(item.PtrName)}}:{{try}}{{item.Sub.PtrName()}}{{catch}}FAILED{{end}}>")
 	// an unexported field, asked for twice: it is an error both times, whatever the first lookup left behind
 	b.WriteString("<unexp:{{try}}{{item.secret}}{{catch}}FAILED{{end}}|{{try}}{{item.secret}}{{catch}}FAILED{{end}}|{{try}}{{item.Sub.secret}}{{catch}}FAILED{{end}}>")
+	// an assignment to a variable the CALLER passed in: the next execution with the same VarMap starts
+	// from what the caller put there, and the caller's map is not written to
+	b.WriteString(`<assign:{{s}}{{s = "reassigned"}}{{s}}>`)
 	b.WriteString("<blocks:")
 	seen := map[string]bool{}
 	for _, bi := range w.Blocks {
